@@ -4,6 +4,7 @@
 //! `update_sources` (an ideal watcher: C20 covers the real event path).
 
 use crate::cx::{self, FaultKind, Profile, SimCrash, State, View};
+use crate::sysfault::{self, SysFault, SysKind};
 use crate::world::{self, EdOp, World, PATHS};
 use isograph_compiler::batch_compile::compile;
 use isograph_compiler::watch::{ChangedFileKind, SourceEventKind, SourceFileEvent};
@@ -29,7 +30,12 @@ pub enum Garbage {
 #[derive(Serialize, Deserialize, Clone, Debug, PartialEq, Eq, Hash)]
 pub enum Step {
     Edit(EdOp),
-    Compile { fault: Option<(usize, FaultKind)> },
+    Compile {
+        fault: Option<(usize, FaultKind)>,
+        /// fault at the system-call seam (preload library); at most one of the two is set
+        #[serde(default, skip_serializing_if = "Option::is_none")]
+        sys: Option<SysFault>,
+    },
     /// the process ends; the next compile starts a new one. `garbage` is written into the
     /// artifact directory before it (someone else edited the directory between sessions).
     Restart { garbage: Vec<Garbage> },
@@ -59,6 +65,8 @@ pub struct Outcome {
     pub faults_fired: u64,
     pub recovered_after_fault: u64,
     pub op_counts: Vec<usize>,
+    /// per compile: the numbered libc calls below the artifact directory (clean log)
+    pub sys_logs: Vec<String>,
 }
 
 fn write_garbage(w: &World, g: &Garbage) {
@@ -171,7 +179,7 @@ pub fn run(case: &SessionCase, tag: u64) -> Outcome {
                     bump(&mut c, "fault.gc");
                 }
             }
-            Step::Compile { fault } => {
+            Step::Compile { fault, sys } => {
                 // ---- bring the session up to date ----
                 let mut early_error: Option<String> = None;
                 if state.is_none() {
@@ -200,15 +208,45 @@ pub fn run(case: &SessionCase, tag: u64) -> Outcome {
                 }
                 let rec = cx::install_fs_hook(artifact_dir.clone(), *fault);
                 let st = state.as_mut().unwrap();
+                let sys_on = sysfault::available();
+                if sys_on {
+                    sysfault::arm(&artifact_dir, *sys);
+                }
                 let result = catch_unwind(AssertUnwindSafe(|| compile::<Profile>(st)));
+                let srec = if sys_on { sysfault::disarm() } else { Default::default() };
                 verif_hooks::set_fs_fault_hook(None);
-                let rec = rec.borrow().clone();
+                let mut rec = rec.borrow().clone();
                 out.op_counts.push(rec.ops.len());
+                for o in &rec.ops {
+                    if let Some((kind, _)) = o.split_once('(') {
+                        bump(&mut c, &format!("probe.writer_op_{kind}"));
+                    }
+                }
+                out.log.extend_from_slice(&srec.loghash.to_le_bytes());
+                let sys_kind: Option<SysKind> = sys.filter(|_| srec.fired).map(|f| f.kind);
+                out.sys_logs.push(srec.log.clone());
+                if srec.calls > 0 {
+                    bump(&mut c, "compiles_with_numbered_syscalls");
+                    *c.entry("syscalls_numbered".to_string()).or_insert(0) += srec.calls;
+                }
+                if let Some(k) = sys_kind {
+                    bump(&mut c, &format!("fault.{}", k.name()));
+                    bump(&mut c, &format!("probe.sys_fault_hit_{}", srec.fired_what));
+                    if !k.is_benign() {
+                        out.faults_fired += 1;
+                        rec.fault_fired = Some(k.name());
+                    }
+                }
                 if let Some(name) = rec.fault_fired {
-                    out.faults_fired += 1;
-                    bump(&mut c, &format!("fault.{name}"));
+                    if sys_kind.is_none() {
+                        out.faults_fired += 1;
+                        bump(&mut c, &format!("fault.{name}"));
+                    }
                     fault_since_session_start = true;
                 }
+                // a kill at a system call: whatever the process went on to do never reached the
+                // disk; its memory is gone
+                let result = if sys_kind.map(|k| k.is_kill()).unwrap_or(false) { Err(Box::new(SimCrash) as Box<dyn std::any::Any + Send>) } else { result };
                 match result {
                     Err(payload) => {
                         if payload.downcast_ref::<SimCrash>().is_some() {
@@ -234,8 +272,19 @@ pub fn run(case: &SessionCase, tag: u64) -> Outcome {
                         out.log.extend_from_slice(&simcore::fnv1a(&artifacts.iter().flat_map(|(k, v)| k.bytes().chain(v.iter().copied())).collect::<Vec<u8>>()).to_le_bytes());
                         let tree = world::snapshot(&artifact_dir);
                         if let Some(diff) = world::describe_diff(&tree, &artifacts) {
-                            let (property, kind) = if dirty { ("C19", "not-repaired-after-interrupted-write") } else { ("C18", "directory-differs-from-artifacts") };
-                            out.violations.push(Violation { property, kind, detail: format!("after a successful compile: {diff}"), step: idx });
+                            let (property, kind) = if rec.fault_fired.is_some() {
+                                ("C19", "success-reported-although-a-write-failed")
+                            } else if dirty {
+                                ("C19", "not-repaired-after-interrupted-write")
+                            } else {
+                                ("C18", "directory-differs-from-artifacts")
+                            };
+                            let how = match (&rec.fault_fired, sys_kind) {
+                                (Some(n), Some(_)) => format!(" [{n} at libc {}()]", srec.fired_what),
+                                (Some(n), None) => format!(" [{n}]"),
+                                _ => String::new(),
+                            };
+                            out.violations.push(Violation { property, kind, detail: format!("after a successful compile{how}: {diff}"), step: idx });
                         } else if dirty {
                             out.recovered_after_fault += 1;
                         }
@@ -263,7 +312,8 @@ pub fn run(case: &SessionCase, tag: u64) -> Outcome {
                             let fs_error = text.iter().any(|t| t.starts_with("Unable to "));
                             if !rec.ops.is_empty() && fs_error {
                                 // the write phase was entered without an injected fault and failed
-                                out.violations.push(Violation { property: "C18", kind: "unfaulted-write-phase-failed", detail: format!("compile failed while writing artifacts: {}", text.first().cloned().unwrap_or_default()), step: idx });
+                                let how = sys_kind.map(|k| format!(" under the benign perturbation {}", k.name())).unwrap_or_default();
+                                out.violations.push(Violation { property: "C18", kind: "unfaulted-write-phase-failed", detail: format!("compile failed while writing artifacts{how}: {}", text.first().cloned().unwrap_or_default()), step: idx });
                                 dirty = true;
                             } else if !rec.ops.is_empty() {
                                 // the compile reports (non file-system) diagnostics and nevertheless
@@ -304,8 +354,8 @@ const SOURCE_PATHS: [usize; 10] = [0, 1, 2, 3, 4, 5, 6, 7, 8, 15];
 
 /// Snippet choice biased to valid contents, so that most runs make progress between errors.
 pub fn gen_snippet(rng: &mut Rng) -> usize {
-    // index:                      0  1  2  3  4  5  6  7  8  9 10 11 12 13 14 15 16 17
-    const W: [u32; 18] = [8, 3, 8, 8, 6, 8, 6, 6, 2, 2, 2, 4, 6, 5, 2, 2, 6, 5];
+    // index:                      0  1  2  3  4  5  6  7  8  9 10 11 12 13 14 15 16 17 18 19 20
+    const W: [u32; 21] = [8, 3, 8, 8, 6, 8, 6, 6, 2, 2, 2, 4, 6, 5, 2, 2, 6, 5, 6, 5, 4];
     rng.weighted(&W)
 }
 
@@ -315,6 +365,38 @@ fn gen_edit(rng: &mut Rng) -> EdOp {
         1 => EdOp::Delete(*rng.pick(&SOURCE_PATHS)),
         2 => EdOp::WriteSchema(*rng.pick(&[0usize, 0, 0, 0, 1, 1, 2, 3])),
         _ => EdOp::WriteExt(*rng.pick(&[0usize, 0, 0, 1, 1, 2])),
+    }
+}
+
+/// If some file currently holds a field together with its entrypoint (or the field alone),
+/// rewrite it to the other form: the selectable stays and loses / gains single files.
+fn gen_toggle_entrypoint(cur: &std::collections::BTreeMap<usize, usize>, rng: &mut Rng) -> Option<EdOp> {
+    let candidates: Vec<(usize, usize)> = cur
+        .iter()
+        .filter_map(|(p, s)| match s {
+            2 => Some((*p, 18)),
+            18 => Some((*p, 2)),
+            4 => Some((*p, 19)),
+            19 => Some((*p, 4)),
+            _ => None,
+        })
+        .collect();
+    if candidates.is_empty() {
+        return None;
+    }
+    let (p, s) = *rng.pick(&candidates);
+    Some(EdOp::Write(p, s))
+}
+
+fn track_edit(cur: &mut std::collections::BTreeMap<usize, usize>, op: &EdOp) {
+    match op {
+        EdOp::Write(p, s) | EdOp::AtomicSave(p, s) => {
+            cur.insert(*p, *s);
+        }
+        EdOp::Delete(p) => {
+            cur.remove(p);
+        }
+        _ => {}
     }
 }
 
@@ -338,6 +420,7 @@ pub fn generate(seed: u64, with_faults: bool) -> SessionCase {
     let mut rng = Rng::new(seed);
     let capacity = *rng.pick(&[1usize, 2, 4, 16, 10_000]);
     let mut steps = Vec::new();
+    let mut cur: std::collections::BTreeMap<usize, usize> = Default::default();
     // the editor creates the directories first
     for d in [0usize, 1, 2, 3] {
         if rng.chance(4, 5) {
@@ -348,8 +431,10 @@ pub fn generate(seed: u64, with_faults: bool) -> SessionCase {
     // mostly valid
     if !rng.chance(1, 6) {
         for _ in 0..rng.range(1, 4) {
-            let s = *rng.pick(&[0usize, 1, 2, 3, 4, 5, 6, 7, 12, 13, 11]);
-            steps.push(Step::Edit(EdOp::Write(*rng.pick(&SOURCE_PATHS), s)));
+            let s = *rng.pick(&[0usize, 1, 2, 3, 4, 5, 6, 7, 12, 13, 11, 2, 4, 18, 19]);
+            let op = EdOp::Write(*rng.pick(&SOURCE_PATHS), s);
+            track_edit(&mut cur, &op);
+            steps.push(Step::Edit(op));
         }
     }
     if rng.chance(1, 3) {
@@ -359,14 +444,35 @@ pub fn generate(seed: u64, with_faults: bool) -> SessionCase {
     let fault_rate = if with_faults { *rng.pick(&[2u64, 4, 7]) } else { 0 };
     for _ in 0..n {
         match rng.weighted(&[10, 8, 2, 1]) {
-            0 => steps.push(Step::Edit(gen_edit(&mut rng))),
+            0 => {
+                let op = if rng.chance(1, 4) { gen_toggle_entrypoint(&cur, &mut rng).unwrap_or_else(|| gen_edit(&mut rng)) } else { gen_edit(&mut rng) };
+                track_edit(&mut cur, &op);
+                steps.push(Step::Edit(op));
+            }
             1 => {
-                let fault = if fault_rate > 0 && rng.chance(fault_rate, 10) {
-                    Some((rng.below(22) as usize, *rng.pick(&cx::ALL_FAULT_KINDS)))
-                } else {
-                    None
-                };
-                steps.push(Step::Compile { fault });
+                let mut fault = None;
+                let mut sys = None;
+                if fault_rate > 0 && rng.chance(fault_rate, 10) {
+                    if rng.chance(1, 2) {
+                        fault = Some((rng.below(22) as usize, *rng.pick(&cx::ALL_FAULT_KINDS)));
+                    } else {
+                        // a diff compile issues a handful of calls, a full re-creation hundreds
+                        let kind = *rng.pick(&sysfault::FAILING_KINDS);
+                        sys = Some(if rng.chance(2, 3) {
+                            // relative to one operation of the writer (a file operation is 1-3 calls,
+                            // a recursive directory removal many)
+                            SysFault { at: *rng.pick(&[0u32, 0, 0, 1, 1, 2, 3, 5, 9, 17]), kind, op: Some(rng.below(22) as u32) }
+                        } else {
+                            let at = match rng.below(3) { 0 => rng.below(8), 1 => rng.below(40), _ => rng.below(300) } as u32;
+                            SysFault { at, kind, op: None }
+                        });
+                    }
+                } else if fault_rate == 0 && rng.chance(1, 4) {
+                    // fault-free configuration: legal-but-unusual behaviour of the operating system
+                    let kind = if rng.chance(1, 2) { SysKind::Short(*rng.pick(&[1u16, 7, 64, 1000])) } else { SysKind::Eintr };
+                    sys = Some(SysFault { at: rng.below(60) as u32, kind, op: None });
+                }
+                steps.push(Step::Compile { fault, sys });
             }
             2 => steps.push(Step::Restart { garbage: gen_garbage(&mut rng) }),
             _ => steps.push(Step::Gc),
@@ -376,7 +482,7 @@ pub fn generate(seed: u64, with_faults: bool) -> SessionCase {
     if with_faults {
         steps.push(Step::Edit(EdOp::WriteSchema(0)));
         steps.push(Step::Edit(EdOp::WriteExt(0)));
-        steps.push(Step::Compile { fault: None });
+        steps.push(Step::Compile { fault: None, sys: None });
     }
     SessionCase { capacity, steps }
 }
